@@ -27,7 +27,7 @@ ASSUMPTIONS = [
 ]
 BOUNDS = {
     "quick": {"threads": 2, "line_level_preemptions": 1, "critical_opcode_level_preemptions": 1},
-    "thorough": {"threads": "2 and 3", "line_level_preemptions": "1, and 2 when the second one is in the bookkeeping functions (4 scenarios)",
+    "thorough": {"threads": "2 and 3", "line_level_preemptions": "1, and 2 when the second one is in push / pop / _apply (scenario different-variables)",
                  "critical_opcode_level_preemptions": 1, "three_threads_preemptions": 1},
 }
 
@@ -345,10 +345,11 @@ CONFIGS = {
     "quick": [("lines", False, 1), ("critical", True, 1)],
     "thorough": [("lines", False, 1), ("critical", True, 1)],
 }
-# thorough: a second preemption is allowed at the lines of the bookkeeping functions (counters, variant
-# table, code swap) in the scenarios that race on them
-REGION_NAMES = {"_tooler", "_untooler", "push", "pop", "get", "_apply", "transform_for", "_register"}
-REGION_SCENARIOS = {"same-variable", "different-variables", "disjoint-functions", "fifo-and-other-function"}
+# thorough: a second preemption is allowed at the lines of the counter updates and of the code swap in the
+# scenario that races on them most (two variants of f, built and installed while the other thread runs);
+# measured: the same for four scenarios and eight functions does not finish in 25 minutes on 16 cores
+REGION_NAMES = {"push", "pop", "_apply"}
+REGION_SCENARIOS = {"different-variables"}
 
 
 def region_for(scenario, critical, tier):
